@@ -1,5 +1,51 @@
-(* C17 — Embedded file transfers are reassembled bit-exactly or not at all.  (statements follow) *)
+(* C17 — Embedded file transfers are reassembled bit-exactly or not at all.
+   Statements only; proofs are in FileTransfer/FtProofs.v, the model (FileTransferPlugin of
+   /repo/src/plugins/file_transfer.rs) is FileTransfer/Ft.v.
+
+   Vocabulary: [run c (init_st fs) ms] processes the messages [ms] with configuration [c] starting with
+   the files [fs]; [ops_for c k ms] are the (package number, payload) pairs of the FLDA messages of [ms]
+   for the transfer key k = (ecu, lifecycle, serial), in log order; [flst_of c m = Some (k, f)] says that m
+   is an announcement for k with the values f; [saved_bytes s i] are the bytes the save command writes for
+   transfer number i; [s_fs s] is the file system (path -> content). *)
 From Coq Require Import List NArith Bool.
-From AdltV Require Import Base.Res Base.MachInt FileTransfer.Ft Exec.C17.
+From AdltV Require Import Base.Res Base.MachInt FileTransfer.Ft FileTransfer.FtProofs Exec.C17.
 Import ListNotations.
 Open Scope N_scope.
+
+(* Whatever the package sequence (drops, swaps, resized packages, duplicates, other transfers, lost
+   announcement): a transfer that is Complete holds exactly the packages numbered 1, 2, .., n, taken in
+   this order from the log (a sub-sequence of the key's FLDA messages: nothing invented, nothing
+   reordered); for an announced transfer n is the announced number of packages, every package has the
+   announced size (the last may be shorter) and the total is the announced file size (if one was
+   announced); the bytes handed to the save command and the auto-saved file are their concatenation. *)
+Theorem C17_complete_implies_exact : forall c fs ms s rets i t,
+  run c (init_st fs) ms = Ok (s, rets) ->
+  nth_error (s_transfers s) i = Some t -> t_state t = Complete ->
+  exists pk : list (N * list N),
+    sublist pk (ops_for c (t_key t) ms) /\
+    map fst pk = nums 1 (length pk) /\
+    t_size t = lenN (concat (map snd pk)) /\
+    (forall d, saved_bytes s i = Some d -> d = concat (map snd pk)) /\
+    (forall p, t_saved t = Some p -> lookup_path p (s_fs s) = Some (concat (map snd pk))) /\
+    (t_data t = [] \/ t_data t = concat (map snd pk)) /\
+    ((exists m f, In m ms /\ flst_of c m = Some (t_key t, f) /\ t_name t = f_name f /\
+                  N.of_nat (length pk) = f_nr f /\ sizes_ok (f_bs f) (f_nr f) pk /\
+                  (f_size f = 0 \/ f_size f = lenN (concat (map snd pk))))
+     \/ (t_name t = MISSING_FLST /\ Forall (fun op => lenN (snd op) <= t_bs t) pk)).
+Proof. exact complete_implies_exact. Qed.
+
+(* the save command only delivers data of transfers that are Complete *)
+Theorem C17_saved_only_complete : forall c fs ms s rets i d,
+  run c (init_st fs) ms = Ok (s, rets) -> saved_bytes s i = Some d ->
+  exists t, nth_error (s_transfers s) i = Some t /\ t_state t = Complete.
+Proof. exact saved_only_complete. Qed.
+
+(* what is reported (the tree items published by the last update_state) shows the current state of every transfer *)
+Theorem C17_published_states_current : forall c fs ms s rets,
+  run c (init_st fs) ms = Ok (s, rets) ->
+  map (fun t => (t_key t, t_state t)) (s_pub s) = map (fun t => (t_key t, t_state t)) (s_transfers s).
+Proof. exact published_states_current. Qed.
+
+Print Assumptions C17_complete_implies_exact.
+Print Assumptions C17_saved_only_complete.
+Print Assumptions C17_published_states_current.
